@@ -6,6 +6,7 @@ import Noodles.Bgzf.AsyncWriter
 import Noodles.Bgzf.Driver
 import Noodles.Io.DriverC16Formats
 import Noodles.Io.DriverC16More
+import Noodles.Csi.DriverC16Query
 /-! Line-protocol handler for the async BGZF reader / writer poll machines (`c16 …`). -/
 namespace Noodles.Bgzf.Async
 open Noodles.Wire Noodles.Bgzf.RM
@@ -118,6 +119,6 @@ def handleC16 : List String → String
     | some cap, some lvl, some ops, some dt, some snk, some defl =>
       if cap = 0 then "bad-op" else AW.handleWr cap lvl ops dt ⟨snk, defl⟩
     | _, _, _, _, _, _ => "bad-op"
-  | ws => (Noodles.IO.Async.handleC16Fmt ws <|> Noodles.IO.Async.handleC16More? ws).getD "bad-op"
+  | ws => (Noodles.IO.Async.handleC16Fmt ws <|> Noodles.IO.Async.handleC16More? ws <|> Noodles.Csi.QueryIo.handleC16Query? ws).getD "bad-op"
 
 end Noodles.Bgzf.Async
